@@ -63,9 +63,12 @@ def check_identity(case, ctx):
     kw = dict(beacon_id=rid, user=case["user"], computer=case["computer"], process=case["process"], dry_run=True)
     ctx.mon("identity.id")
     clients = []
-    for _ in range(2):
+    for attempt in range(2):
         c = cl.HttpBeaconClient()
-        random.seed(case["seed"])
+        random.seed(case["seed"] + attempt)
+        if attempt == 1:
+            # same id, everything else about the session may differ: explicit pid / architecture / integrity / sleep options
+            kw = dict(kw, pid=4242, arch="x64", barch="x86", high_integrity=True, sleeptime=1234, jitter=0, internal_ip="10.1.2.3")
         try:
             c.run(cfg, **kw)
         except ValueError as e:
@@ -94,7 +97,8 @@ def check_identity(case, ctx):
     a, b = clients
     ctx.mon("identity.keys")
     d = hashlib.sha256(a.aes_rand).digest()
-    if (a.aes_rand, a.aes_key, a.hmac_key) != (b.aes_rand, b.aes_key, b.hmac_key) or (a.aes_key, a.hmac_key) != (d[:16], d[16:]) \
+    same_id = a.beacon_id == b.beacon_id  # (a random id is drawn per instance when none is requested)
+    if (same_id and (a.aes_rand, a.aes_key, a.hmac_key) != (b.aes_rand, b.aes_key, b.hmac_key)) or (a.aes_key, a.hmac_key) != (d[:16], d[16:]) \
             or bytes(a.metadata.aes_rand) != a.aes_rand or len(a.aes_rand) != 16:
         ctx.violation("identity.keys", f"id {a.beacon_id}: session keys differ between instances or are not the SHA-256 halves of aes_rand", case)
         return
